@@ -5,6 +5,7 @@
 import CnvVerif.Model.Interval
 import CnvVerif.Model.IntervalSpec
 import CnvVerif.Lemmas.Interval
+import CnvVerif.Lemmas.Interval2
 namespace CnvVerif.C06
 open CnvVerif
 
